@@ -1,6 +1,7 @@
 #!/bin/bash
 # tools/run_tier.sh quick|thorough [ids...] : run the registered checks of a
 # tier one after another in /verif against /repo; log per check.
+# VERIF_SEED is honoured (default 0).
 cd /verif
 tier=${1:-quick}; shift
 ids=${@:-C01 C02 C03 C04 C05 C06 C07 C08 C09 C10 C11 C12 C13 C14 C15 C16 C17 C18 C19}
